@@ -33,6 +33,7 @@ def payload (n pat per nl : Nat) : List Byte :=
       | 2 => if i % 61 = 0 then 10 else alpha 65 i 11
       | 3 => (i * 37 + 13) % 256
       | 4 => alpha 97 (i % (if per = 0 then 1 else per)) 7
+      | 6 => if i % 17 = 5 then 255 else if i % 23 = 11 then 0 else alpha 97 i 7
       | 5 => if n = i + nl + 1 ∨ i % 5 = 2 then 32 else if i % 11 = 7 then 9 else if i % 13 = 5 then 10
              else alpha 97 i 7
       | _ => alpha 97 i 7
@@ -46,6 +47,9 @@ def kvNat (ws : List String) (k : String) : Nat := ((kv ws k).bind (·.toNat?)).
 
 inductive Op where
   | openFd (r w : Bool)
+  | dwrite (k n : Nat)
+  | dread (k n : Nat)
+  | selBad
   | setNb (k : Nat) (b : Bool)
   | close (k : Nat)
   | write (k n : Nat)
@@ -57,6 +61,10 @@ def parseOp (t : String) : Option Op :=
   | ["or"] => some (.openFd true false)
   | ["ow"] => some (.openFd false true)
   | ["orw"] => some (.openFd true true)
+  | ["owa"] => some (.openFd false true)
+  | ["dw", k, n] => do pure (.dwrite (← k.toNat?) (← n.toNat?))
+  | ["dr", k, n] => do pure (.dread (← k.toNat?) (← n.toNat?))
+  | ["selbad", _] => some .selBad
   | ["nb", k, b] => do pure (.setNb (← k.toNat?) ((← b.toNat?) != 0))
   | ["c", k] => do pure (.close (← k.toNat?))
   | ["w", k, n] => do pure (.write (← k.toNat?) (← n.toNat?))
@@ -139,6 +147,43 @@ def opStep (st : OpState) (i : Nat) : Op → String × OpState × Option String
           let blocked := match res with | .ok _ => false | _ => true
           if specReadOk st.fifo n blocked bs.length then none else some "read-law"
       (txt, { st with fifo := f, delivered := st.delivered ++ bs }, verdict)
+  | .dwrite k n =>
+    -- `OpenFileDescription::write`: one `poll_write`; `Pending` → EAGAIN
+    match slotGet st k with
+    | none => ("nofd", st, none)
+    | some o =>
+      let buf := opData i n
+      let (res, f) := o.pollWrite cfg st.fifo buf
+      let written := f.content.length - st.fifo.content.length
+      let txt := match res with
+        | .ok m => s!"ok {m}"
+        | .pending => "EAGAIN"
+        | .err e => showErr e
+      let verdict :=
+        if !o.writable then (if res == .err .EBADF then none else some "write-on-reader")
+        else
+          let wres := match res with
+            | .ok m => WRes.wrote m
+            | .err .EPIPE => WRes.epipe
+            | _ => WRes.block
+          if specWriteOk cfg st.fifo n wres f buf then none else some "write-law"
+      (txt, { st with fifo := f, accepted := st.accepted ++ buf.take written }, verdict)
+  | .dread k n =>
+    match slotGet st k with
+    | none => ("nofd", st, none)
+    | some o =>
+      let (res, bs, f) := o.sysRead st.fifo n
+      let txt := match res with
+        | .ok m => s!"ok {m}:{hashBytes bs}"
+        | .pending => "EAGAIN"
+        | .err e => showErr e
+      let verdict :=
+        if !o.readable then (if res == .err .EBADF then none else some "read-on-writer")
+        else
+          let blocked := match res with | .ok _ => false | _ => true
+          if specReadOk st.fifo n blocked bs.length then none else some "read-law"
+      (txt, { st with fifo := f, delivered := st.delivered ++ bs }, verdict)
+  | .selBad => ("sel EBADF", st, none)
   | .sel =>
     let idx := List.range st.slots.length
     let rs := idx.filter fun k => match slotGet st k with
@@ -183,19 +228,30 @@ def wReq (total wk : Nat) (s : Sys Byte) : Nat :=
 
 /-- Runs writer ∥ reader: at every step the seeded generator names a process; if that process
     cannot step the other one is tried; stops when neither can (final state, or deadlock). -/
-def runSched (total wk rk : Nat) : Nat → Nat → Sys Byte → Sys Byte
+def runSchedStop (total wk rk : Nat) (stop : Option Nat) : Nat → Nat → Sys Byte → Sys Byte
   | 0, _, s => s
   | fuel + 1, x, s =>
     let x' := lcg x
     let aw := Act.w (wReq total wk s)
-    let ar := Act.r (if rk = 0 then 1024 else rk)
-    let (a1, a2) := if (x' / 65536) % 2 = 0 then (aw, ar) else (ar, aw)
-    match s.step cfg a1 with
-    | some s' => runSched total wk rk fuel x' s'
+    let buf := if rk = 0 then 1024 else rk
+    -- a reader with `stop = some K` asks for at most what is missing to K and closes at K
+    let stepReader (s : Sys Byte) : Option (Sys Byte) :=
+      match stop with
+      | none => s.step cfg (Act.r buf)
+      | some k =>
+        if s.rpc == .run && k ≤ s.received.length then s.stepRClose
+        else s.step cfg (Act.r (min buf (k - s.received.length)))
+    let stepWriter (s : Sys Byte) : Option (Sys Byte) := s.step cfg aw
+    let (f1, f2) := if (x' / 65536) % 2 = 0 then (stepWriter, stepReader) else (stepReader, stepWriter)
+    match f1 s with
+    | some s' => runSchedStop total wk rk stop fuel x' s'
     | none =>
-      match s.step cfg a2 with
-      | some s' => runSched total wk rk fuel x' s'
+      match f2 s with
+      | some s' => runSchedStop total wk rk stop fuel x' s'
       | none => s
+
+def runSched (total wk rk : Nat) (fuel x : Nat) (s : Sys Byte) : Sys Byte :=
+  runSchedStop total wk rk none fuel x s
 
 def showW : WPc → String
   | .run => "run" | .wait => "wait" | .closed => "closed" | .failed => "failed"
@@ -208,15 +264,37 @@ def transfer (seed wk rk : Nat) (x : List Byte) : Option (List Byte) :=
   if s.final then some s.received else none
 
 def runXfer (ws : List String) : String :=
+  if kv ws "mode" == some "rderr" then
+    -- `read_all` on the writing end of a fresh pipe: the first `read` fails, nothing was read
+    let o : Ofd := { readable := false, writable := true, nonblocking := true }
+    let (res, bs, _) := o.sysRead ({ content := [], readers := 1, writers := 1 } : Fifo Byte) 1024
+    let txt := match res with
+      | .err e => s!"rderr={showErr e} len={bs.length}"
+      | _ => s!"rderr=none len={bs.length}"
+    txt ++ "\t=rderr=EBADF len=0"
+  else
   let n := kvNat ws "n"
   let p := payload n (kvNat ws "pat") (kvNat ws "per") (kvNat ws "nl")
   let wk := kvNat ws "wk"
   let rk := kvNat ws "rk"
-  let s := runSched n wk rk (12 * n + 200) (kvNat ws "seed") (Sys.init p)
-  let obs := s!"recv={s.received.length}:{hashBytes s.received} w={showW s.wpc} r={showR s.rpc}"
-  let obs := if s.final then obs else "stuck " ++ obs
-  let want := specTransfer p
-  obs ++ "\t" ++ s!"=recv={want.length}:{hashBytes want} w=closed r=done"
+  let stop := (kv ws "stop").bind (·.toNat?)
+  let s := runSchedStop n wk rk stop (12 * n + 200) (kvNat ws "seed") (Sys.init p)
+  -- the reader stopped early iff it closed before end of file
+  let early := match stop with
+    | some k => decide (k < n)
+    | none => false
+  let rTxt := if early && s.rpc == .done then "stopped" else showR s.rpc
+  let obs := s!"recv={s.received.length}:{hashBytes s.received} w={showW s.wpc} r={rTxt}"
+  let finished := s.rpc == .done && (s.wpc == .closed || s.wpc == .failed)
+  let obs := if finished then obs else "stuck " ++ obs
+  let want := match stop with
+    | some k => (specTransfer p).take k
+    | none => specTransfer p
+  -- Spec: a prefix arrives; a writer that cannot finish (more than K + capacity to send) gets EPIPE
+  let wWant := match stop with
+    | some k => if k + cfg.pipeSize < n then "failed" else showW s.wpc
+    | none => "closed"
+  obs ++ "\t" ++ s!"=recv={want.length}:{hashBytes want} w={wWant} r={if early then "stopped" else "done"}"
 
 /-! ### shell-level data flows -/
 
@@ -226,21 +304,29 @@ def showFlow (x : List Byte) : String :=
 
 def emitsNewline (src : String) : Bool := src == "var" || src == "dbl" || src == "here"
 
+/-- `String::from_utf8(result).unwrap_or_else(|e| String::from_utf8_lossy(..))` of `expand_common`, for
+    byte strings whose only bytes outside UTF-8 are 0xFF (each becomes U+FFFD = EF BF BD; all other
+    bytes, NUL included, are kept) — the only kind of invalid output the generator produces -/
+def lossyFF (bs : List Byte) : List Byte := bs.flatMap fun b => if b = 255 then [239, 191, 189] else [b]
+
+/-- command substitution on the bytes the child wrote: lossy decoding, then the trailing newlines go -/
+def substValue (bs : List Byte) : List Byte := trimEnd 10 (lossyFF bs)
+
 /-- the Impl model of the flow: every pipe is a run of the writer ∥ reader system -/
 def flowModel (seed : Nat) : List Char → List Byte → Option (List Byte)
   | [], x => some x
   | 'c' :: rest, x => do flowModel (lcg seed) rest (← transfer seed 0 0 x)
   | 'y' :: rest, x => do flowModel (lcg seed) rest (← transfer seed 0 (1 + seed % 700) x)
   | 'g' :: rest, x => flowModel seed rest x
-  | 's' :: rest, x => do flowModel (lcg seed) rest (trimEnd 10 (← transfer seed 0 0 x) ++ [10])
-  | 'h' :: rest, x => do flowModel (lcg seed) rest (trimEnd 10 (← transfer seed 0 0 x) ++ [10])
+  | 's' :: rest, x => do flowModel (lcg seed) rest (substValue (← transfer seed 0 0 x) ++ [10])
+  | 'h' :: rest, x => do flowModel (lcg seed) rest (substValue (← transfer seed 0 0 x) ++ [10])
   | _ :: _, _ => none
 
 /-- the Spec of the flow: pipes are the identity, `$( )` removes the trailing newlines -/
 def flowSpec : List Char → List Byte → List Byte
   | [], x => x
-  | 's' :: rest, x => flowSpec rest (specSubst 10 (specTransfer x) ++ [10])
-  | 'h' :: rest, x => flowSpec rest (specSubst 10 (specTransfer x) ++ [10])
+  | 's' :: rest, x => flowSpec rest (specSubst 10 (lossyFF (specTransfer x)) ++ [10])
+  | 'h' :: rest, x => flowSpec rest (specSubst 10 (lossyFF (specTransfer x)) ++ [10])
   | _ :: rest, x => flowSpec rest (specTransfer x)
 
 def runSh (ws : List String) : String :=
@@ -248,18 +334,23 @@ def runSh (ws : List String) : String :=
   let p := payload n (kvNat ws "pat") (kvNat ws "per") (kvNat ws "nl")
   let src := (kv ws "src").getD "file"
   let shape := ((kv ws "shape").getD "-").toList.filter (· ≠ '-')
-  let isVar := (kv ws "kind").getD "out" == "var"
+  let kind := (kv ws "kind").getD "out"
+  let isVar := kind == "var" || kind == "bq"
+  -- `st=N`: the flow inside `$( )` ends with a command of exit status N, which becomes `$?`
+  let stTxt := match kv ws "st" with
+    | some n => s!" st={n}"
+    | none => ""
   let seed := kvNat ws "seed"
   let emitted := if emitsNewline src then p ++ [10] else p
   let model := do
     let x ← flowModel seed shape emitted
-    if isVar then pure (trimEnd 10 (← transfer (lcg (seed + 1)) 0 0 x)) else pure x
+    if isVar then pure (substValue (← transfer (lcg (seed + 1)) 0 0 x)) else pure x
   let spec :=
     let x := flowSpec shape emitted
-    if isVar then specSubst 10 (specTransfer x) else x
+    if isVar then specSubst 10 (lossyFF (specTransfer x)) else x
   (match model with
-    | some x => showFlow x
-    | none => "stuck") ++ "\t=" ++ showFlow spec
+    | some x => showFlow x ++ stTxt
+    | none => "stuck") ++ "\t=" ++ showFlow spec ++ stTxt
 
 /-! ### descriptor choreography (`fd` cases) -/
 
